@@ -98,6 +98,19 @@ func ruleFeeder(w *World, r *Run) {
 		}
 		att := Summary{Events: after, Facts: s.Facts, Rets: s.Rets}
 		gl := calls(att, cFeederGetLatest)
+		// the feed's context has ended (ctx.Err() found non-nil on the path): the attempt may stop where it is, for good
+		ctxEnded := false
+		for _, ce := range calls(s, "(context.Context).Err") {
+			if ce.Recv == ctx {
+				if k, isNil, _ := nilFact(s, ce.Res); k && !isNil {
+					ctxEnded = true
+				}
+			}
+		}
+		if ctxEnded && len(calls(att, cFeederUpdate)) == 0 {
+			r.Pass("C13.c", fnFeedOnce+" | an attempt cut short by the end of its context submits nothing", w.pos(rt[0].Pos), "")
+			continue
+		}
 		if len(gl) != 1 || gl[0].Recv != wit || len(gl[0].Args) != 2 || gl[0].Args[0] != ctx || gl[0].Args[1] != logID {
 			r.Fail("C13.b", fnFeedOnce+" | each attempt first asks the witness for its latest checkpoint of this log", w.pos(rt[0].Pos), "attempt does not start with Witness.GetLatestCheckpoint(ctx, opts.LogID)")
 			continue
